@@ -1,6 +1,7 @@
 import SpVerif.Model.GeomProto
 import SpVerif.Model.Frames
 import SpVerif.Model.Join
+import SpVerif.Model.HilbertDist
 namespace SpVerif.FramesProto
 open SpVerif.Proto SpVerif.Geom SpVerif.Frames SpVerif.GeomProto
 
@@ -64,3 +65,25 @@ def run : List V → Option String
   | _ => none
 
 end SpVerif.JoinProto
+
+namespace SpVerif.HDistProto
+open SpVerif.Proto SpVerif.HilbertDist
+
+def quad? : V → Option (Int × Int × Int × Int)
+  | .l [.i a, .i b, .i c, .i d] => some (a, b, c, d)
+  | _ => none
+
+/-- `hdist <p> <total> <rows>` → per row `[ cx cy dist ]` (`N` for a NaN row) -/
+def run : List V → Option String
+  | [.w "hdist", .i p, tb, .l rows] => do
+    let t ← quad? tb
+    if p < 1 then none else
+    let outs ← rows.mapM (fun r => match r with
+      | .none => some V.none
+      | r => (quad? r).map (fun b =>
+          let c := cellOf t p.toNat b
+          ofNats [c.1, c.2, hilbertDistance t p.toNat b]))
+    pure (V.l outs).show
+  | _ => none
+
+end SpVerif.HDistProto
